@@ -10,6 +10,7 @@ import QiVerif.Driver.C17
 import QiVerif.Driver.C10
 import QiVerif.Driver.C11
 import QiVerif.Driver.C06
+import QiVerif.Driver.C04
 open QiVerif.Driver
 
 /-- parameters handed over by ./check from the regenerated constants -/
@@ -22,6 +23,7 @@ structure DState where
   ep : C17.St := {}
   cl : QiVerif.Client.W := {}
   au : C06.St := {}
+  sv : C04.St := {}
 
 def dispatch (p : Params) (st : DState) (line : String) : DState × String :=
   let ws := words line
@@ -42,6 +44,9 @@ def dispatch (p : Params) (st : DState) (line : String) : DState × String :=
     else if op.startsWith "rd." || op.startsWith "val." || op.startsWith "enc." || op.startsWith "dec." then
       (st, Codec.run ws)
     else if op.startsWith "c10." then (st, C10.run ws)
+    else if op.startsWith "sv." || op.startsWith "c04." then
+      let (s', out) := C04.run st.sv ws
+      ({ st with sv := s' }, out)
     else if op.startsWith "au." then
       let (s', out) := C06.run st.au ws
       ({ st with au := s' }, out)
